@@ -35,7 +35,7 @@ class C13(Prop):
         "file round trips only use names without '.' or ':' and blank names on lines without a further period "
         "(the statement's own mask)",
     ]
-    quick = {"runs": 6000, "wall": 40}
+    quick = {"runs": 40000, "wall": 60}
     thorough = {"runs": 400000, "wall": 900}
     hash_sensitive = True
 
